@@ -451,7 +451,7 @@ func TestC19(t *testing.T) {
 		}
 	}
 	shapes := []string{"direct+reexport", "two-reexporters", "chain+direct", "public+nonpublic"}
-	n := r.N(400, 8000)
+	n := r.N(2000, 20000)
 	r.Par(n, func(i int) {
 		id := fmt.Sprintf("u/%d", i)
 		redundant := ""
@@ -529,9 +529,6 @@ func runC19(r *vlib.Run, id string, c *c19Case, salt int) {
 		}
 		isWarned := warned[im.Path] > 0
 		cls := "unique provider: " + im.Usage
-		if im.NsMatch && im.ExpectRemovable {
-			cls = "unique provider: removable import (unused / related-unnamed) whose package is the namespace through which a partially-qualified reference to ANOTHER import resolves"
-		}
 		if im.Redundant != "" {
 			pos := "searched later"
 			if k == firstRed {
@@ -540,6 +537,9 @@ func runC19(r *vlib.Run, id string, c *c19Case, salt int) {
 			cls = fmt.Sprintf("redundant provider (%s): %s, %s", strings.TrimPrefix(c.class, "redundant:"), im.Redundant, pos)
 		} else if c.class != "unique" {
 			cls = "unique provider next to a redundant pair: " + im.Usage
+		}
+		if im.Redundant == "" && im.NsMatch && im.ExpectRemovable {
+			cls = "unique provider: removable import (unused / related-unnamed) whose package is the namespace through which a partially-qualified reference to ANOTHER import resolves"
 		}
 		if im.Public {
 			evaluated = append(evaluated, "")
